@@ -176,7 +176,20 @@ class Discharger:
                     continue  # alias save cannot undo an in-place mutation
                 if not rng and "rng_state" in v.deps:
                     continue
-                kind = pure_snapshot_expr(getattr(b.node, "value", None), rng)
+                sv = getattr(b.node, "value", None)
+                if isinstance(sv, ast.Tuple) and isinstance(r.node, ast.Assign) and isinstance(r.node.targets[0], ast.Tuple) \
+                        and len(sv.elts) == len(r.node.targets[0].elts) and r.kind == "attr_store":
+                    # state saved as one tuple of snapshots and restored by one unpacking assignment:
+                    # judge the component that belongs to this attribute
+                    pos = [i for i, t_ in enumerate(r.node.targets[0].elts)
+                           if isinstance(t_, ast.Attribute) and t_.attr == r.data["attr"]]
+                    if not pos:
+                        continue
+                    sv = sv.elts[pos[0]]
+                    reads = [x for x in ast.walk(sv) if isinstance(x, ast.Attribute)]
+                    if not any(x.attr == r.data["attr"] for x in reads):
+                        continue  # component i does not snapshot the attribute restored at position i
+                kind = pure_snapshot_expr(sv, rng)
                 if not kind:
                     continue  # snapshot mixes in something else
                 if isinstance(kind, str) and kind.startswith("conv:"):
